@@ -316,3 +316,43 @@ func H_C10_mmap() {
 	vJoin()
 	vCover("C10mm.done")
 }
+
+// H_C10_filesize: FileSize takes no database lock: its directory scan (ReadDir,
+// then an lstat per entry; scheduling points of the kernel model, engine flag
+// dirYield) runs against a Compact thread that unlinks a segment in between.
+// FileSize may report an error for the vanished file but must not panic, and
+// without an error the size is positive.
+func H_C10_filesize() {
+	n := 2
+	vlen := 2
+	rec := 10 + 8 + vlen
+	db, err := Open("c10fs", smallOpts(fs.OS, 2, rec))
+	vAssert(err == nil, "C10fs.open")
+	if err != nil {
+		return
+	}
+	r := newRef(n, 8)
+	applyOp(db, r, 0, 0, vlen, "C10fs.prefix")
+	applyOp(db, r, 0, 0, vlen, "C10fs.prefix")
+	applyOp(db, r, 0, 0, vlen, "C10fs.prefix") // segment 0 holds only dead records
+	var size int64
+	var ferr error
+	vFlag("dirYield", 1)
+	vGo(func() { size, ferr = db.FileSize() })
+	vGo(func() {
+		cr, err := db.Compact()
+		vAssert(err == nil, "C10fs.compact")
+		if cr.CompactedSegments > 0 {
+			vCover("C10fs.segment-removed")
+		}
+	})
+	vJoin()
+	vFlag("dirYield", 0)
+	if ferr == nil {
+		vAssert(size > 0, "C10fs.size")
+	} else {
+		vCover("C10fs.filesize-reported-the-vanished-file")
+	}
+	checkReads(db, r, "C10fs.after")
+	vCover("C10fs.done")
+}
